@@ -4,9 +4,11 @@ go 1.24.3
 
 require (
 	github.com/anishathalye/porcupine v1.3.0
+	github.com/blevesearch/bleve/v2 v2.5.1
 	github.com/google/uuid v1.6.0
 	github.com/rs/zerolog v1.34.0
 	github.com/semafind/semadb v0.0.0
+	github.com/vmihailenco/msgpack/v5 v5.4.1
 	golang.org/x/sys v0.33.0
 )
 
@@ -14,7 +16,6 @@ require (
 	github.com/RoaringBitmap/roaring v1.9.4 // indirect
 	github.com/beorn7/perks v1.0.1 // indirect
 	github.com/bits-and-blooms/bitset v1.22.0 // indirect
-	github.com/blevesearch/bleve/v2 v2.5.1 // indirect
 	github.com/blevesearch/bleve_index_api v1.2.8 // indirect
 	github.com/blevesearch/geo v0.2.3 // indirect
 	github.com/blevesearch/go-porterstemmer v1.0.3 // indirect
@@ -33,7 +34,6 @@ require (
 	github.com/prometheus/client_model v0.6.2 // indirect
 	github.com/prometheus/common v0.64.0 // indirect
 	github.com/prometheus/procfs v0.16.1 // indirect
-	github.com/vmihailenco/msgpack/v5 v5.4.1 // indirect
 	github.com/vmihailenco/tagparser/v2 v2.0.0 // indirect
 	go.etcd.io/bbolt v1.4.0 // indirect
 	google.golang.org/protobuf v1.36.6 // indirect
